@@ -12,17 +12,24 @@ fn sequences(n: usize, len: usize) -> Vec<Vec<usize>> { let mut out = vec![vec![
 
 pub fn run(ctx: &Ctx) -> i32 {
     let th = ctx.tier.thorough();
-    let payloads = vec![Envelope::new("pl"), Envelope::new("pl").add_assertion("a", "b"), Envelope::new("pl").wrap_envelope(), Envelope::new_assertion("pp", "po"), Envelope::new("pl2").elide(), Envelope::new("pl").wrap_envelope().wrap_envelope(), Envelope::new(f64::NAN), Envelope::null().add_assertion("n", Envelope::null())];
+    let payloads = vec![Envelope::new("pl"), Envelope::new("pl").add_assertion("a", "b"), Envelope::new("pl").wrap_envelope(), Envelope::new_assertion("pp", "po"), Envelope::new("pl2").elide(), Envelope::new("pl").wrap_envelope().wrap_envelope()];
+    let corner_payloads = [Envelope::new(f64::NAN), Envelope::null().add_assertion("n", Envelope::null())];
+    let payloads: Vec<Envelope> = payloads.into_iter().chain(corner_payloads).collect();
     let vendors = ["v1", "v2"]; let conf = [None, Some("c1"), Some("c2")];
-    let mut atts: Vec<Att> = vec![]; for (i, _) in payloads.iter().enumerate() { for v in vendors { for c in conf { atts.push((i, v, c)) } } }
+    let mut atts: Vec<Att> = vec![]; for (i, _) in payloads.iter().enumerate().take(6) { for v in vendors { for c in conf { atts.push((i, v, c)) } } }
+    atts.extend([(6usize, "v1", None), (7, "v2", Some("c1"))]);
     // value-dependent corners: empty strings, case and padding differences (filters must compare whole strings exactly)
     atts.extend([(0usize, "", None), (0, "v1", Some("")), (1, "V1", Some("C1")), (0, "v1 ", Some("c1 ")), (0, "", Some(""))]);
     let att_env: Vec<Envelope> = atts.iter().map(|(pi, v, c)| Envelope::new_attachment(payloads[*pi].clone(), v, *c)).collect();
-    let bases: Vec<Envelope> = families::plain(3).iter().chain(families::nsn().iter().take(2)).chain(families::valued_few().iter().step_by(7)).map(|m| bind::build(m, 0)).collect();
+    let bases: Vec<Envelope> = families::plain(3).iter().chain(families::nsn().iter().take(2)).chain(families::valued_few().iter().step_by(15)).map(|m| bind::build(m, 0)).collect();
     let maxn = 3;
     // multisets as sequences (every order, with repetition); thorough length 3 over a reduced attachment pool
     let mut seqs: Vec<Vec<usize>> = vec![vec![]];
-    seqs.extend(sequences(atts.len(), 1)); seqs.extend(sequences(atts.len(), 2));
+    // pairs: all ordered pairs of the 36 regular attachments; the value-dependent corner attachments (index >= 36) with themselves and, in both
+    // orders, with six regular ones
+    let regular = 36usize;
+    seqs.extend(sequences(atts.len(), 1)); seqs.extend(sequences(regular, 2));
+    for c in regular..atts.len() { seqs.push(vec![c, c]); for x in [0usize, 1, 2, 5, 7, 13] { seqs.push(vec![c, x]); seqs.push(vec![x, c]) } }
     if maxn >= 3 { let sub: Vec<usize> = if th { (0..atts.len()).step_by(2).collect() } else { vec![0, 1, 2, 5, 7, 13, 26, 29] }; for s in sequences(sub.len(), 3) { seqs.push(s.iter().map(|i| sub[*i]).collect()) } }
     let nbases = bases.len();
     let acc = (0..nbases).into_par_iter().with_max_len(1).map(|bi| {
@@ -68,7 +75,12 @@ pub fn run(ctx: &Ctx) -> i32 {
                     }
                 }
                 if let Ok(Ok(a)) = catch(|| Attachments::try_from_envelope(&e)) { for d in &ed { if a.get(&Digest::from_data(*d)).is_none() { acc.viol("C19|Attachments::try_from_envelope|missing", "container misses an attachment", cid("container"), json!({})) } } }
+                let corner = seq.iter().any(|i| *i >= 36);
                 for fv in [None, Some("v1"), Some("v2"), Some("v3"), Some(""), Some("V1")] { for fc in [None, Some("c1"), Some("c2"), Some("c3"), Some(""), Some("C1")] {
+                    // all 36 combinations when a corner attachment is present; otherwise the 16 regular ones and each corner value alone
+                    let special = |x: Option<&str>| matches!(x, Some("") | Some("V1") | Some("C1"));
+                    if !corner && special(fv) && special(fc) { continue }
+                    if !corner && (special(fv) || special(fc)) && (fv.is_some() && fc.is_some()) { continue }
                     acc.inc("filter_queries");
                     let mut expf: Vec<[u8; 32]> = seq.iter().filter(|i| { let (_, v, c) = atts[**i]; fv.map_or(true, |x| x == v) && fc.map_or(true, |x| Some(x) == c) }).map(|i| bind::dg(&att_env[*i])).collect(); expf.sort(); expf.dedup();
                     let cidf = || cid(&format!("filter-{fv:?}-{fc:?}"));
@@ -124,6 +136,28 @@ pub fn run(ctx: &Ctx) -> i32 {
             for (q, r) in [("attachments", catch(|| e.attachments().map(|v| v.len()))), ("filtered", catch(|| e.attachments_with_vendor_and_conforms_to(Some("v1"), None).map(|v| v.len()))), ("single", catch(|| e.attachment_with_vendor_and_conforms_to(Some("v1"), Some("c1")).map(|_| 1)))] {
                 match r { Err(p) => acc.viol(format!("C19|malformed|{q}|panic|{}", p.loc), p.msg.clone(), cid.clone(), json!({"envelope": crate::report::ff(&e)})), Ok(Ok(n)) => acc.viol(format!("C19|malformed|{q}|{name}|accepted"), format!("a malformed attachment assertion was not reported ({n} returned)"), cid.clone(), json!({"envelope": crate::report::ff(&e)})), Ok(Err(_)) => {} }
             }
+        }
+    }
+    // an attachment assertion that carries an assertion of its own (salted, annotated): whether that still counts as well-formed is left open,
+    // but it is an 'attachment' assertion of the envelope - the queries either report it invalid or return it, they never silently leave it out
+    for with_good in [false, true] {
+        acc.inc("malformed_attachments");
+        let dec = good.add_assertion("annotated", "yes");
+        let mut e = Envelope::new("s"); if with_good { e = e.add_attachment("ok", "v1", None) }
+        let e = e.add_assertion_envelope(dec.clone()).unwrap();
+        match catch(|| e.attachments()) {
+            Ok(Ok(v)) => if !v.iter().any(|x| bind::dg(x) == bind::dg(&dec)) { acc.viol("C19|decorated-attachment|silently-skipped", "an attachment assertion carrying an assertion of its own is neither reported invalid nor returned", format!("decorated/good{}", with_good as u8), json!({"envelope": crate::report::ff(&e)})) },
+            Ok(Err(_)) => acc.inc("decorated_attachment_reported_invalid"),
+            Err(p) => acc.viol(format!("C19|decorated-attachment|panic|{}", p.loc), p.msg.clone(), format!("decorated/good{}", with_good as u8), json!({})),
+        }
+    }
+    // a type added as an assertion that carries an assertion of its own (add_assertion_salted('isA', T, true), or annotated) is a type of the envelope
+    for (tn, te) in [("salted", Envelope::new("s").add_assertion_salted(known_values::IS_A, known_values::NOTE, true)), ("annotated", Envelope::new("s").add_assertion_envelope(Envelope::new_assertion(known_values::IS_A, known_values::NOTE).add_assertion("why", "w")).unwrap())] {
+        acc.inc("type_sets");
+        match catch(|| (te.has_type(&known_values::NOTE), te.check_type(&known_values::NOTE).is_ok(), te.has_type_envelope(known_values::NOTE), te.types().len())) {
+            Ok((true, true, true, 1)) => {}
+            Ok(g) => acc.viol(format!("C19|types|{tn}-type-assertion|not-reported"), format!("a type added through an assertion that carries an assertion of its own is not reported: {g:?}"), format!("types/{tn}"), json!({"envelope": crate::report::ff(&te)})),
+            Err(p) => acc.viol(format!("C19|types|panic|{}", p.loc), p.msg.clone(), format!("types/{tn}"), json!({})),
         }
     }
     // the Attachments container itself: add / get / remove / clear / is_empty agree with a plain map keyed by digest
